@@ -121,7 +121,7 @@ func (x *Engine) resolveGuards() {
 		if g == nil || mu == nil {
 			panic(fmt.Sprintf("%s:%d: contract error: guarded: %s or %s is not a package variable of %s", gs.File, gs.Line, gs.Global, gs.Mutex, gs.Pkg))
 		}
-		gd := &guard{g: g, mu: mu, props: gs.Props}
+		gd := &guard{g: g, mu: mu, props: gs.Props, insertOnce: gs.InsertOnce}
 		if gs.ReadersAlso != "" {
 			gd.alt, _ = pkg.Members[gs.ReadersAlso].(*ssa.Global)
 			if gd.alt == nil {
@@ -473,7 +473,7 @@ func (x *Engine) verifyFunc(fs *FuncSpec, cs *Clause, prop string) (rep *FuncRep
 			}
 			o := x.obligeNoAssume(ret, "ensures", lab, g, c.Text, fmt.Sprintf("%s:%d", shortFile(c.File), c.Line))
 			if len(c.Props) > 0 {
-				o.Props = c.Props
+				o.Props, o.Tagged = c.Props, true
 			}
 			// cover: the antecedent of an implication must be reachable
 			if c.Expr.Op == "binary" && c.Expr.Name == "==>" && cs == nil && !c.NoCover {
